@@ -486,6 +486,12 @@ pub struct AbiCase {
     /// 2 9 bytes of garbage, 3 a 128-byte stale segment with version 0
     #[serde(default)]
     pub preexisting: u8,
+    /// what happens between the two opens and the two now() calls: 0 nothing; 1 the generation
+    /// turns odd (daemon killed inside an update); 2 version and generation 0 (a restarting daemon
+    /// has wiped the file); 3 one more complete update with another record; 4 both clients first
+    /// make a call that fails (monotonic reading a second before as-of)
+    #[serde(default)]
+    pub after_open: u8,
 }
 
 pub struct C17;
@@ -505,9 +511,9 @@ fn c17_strategy() -> BoxedStrategy<AbiCase> {
         -((1i64 << 31) * 1_000_000_000)..((1i64 << 31) * 1_000_000_000),
         any::<bool>(),
         prop_oneof![8 => Just(0u8), 1 => 1u8..5],
-        (any::<bool>(), prop_oneof![5 => Just(0u8), 1 => Just(1u8), 1 => Just(2u8), 1 => Just(3u8)]),
+        (any::<bool>(), prop_oneof![5 => Just(0u8), 1 => Just(1u8), 1 => Just(2u8), 1 => Just(3u8)], prop_oneof![4 => Just(0u8), 4 => 1u8..5]),
     )
-        .prop_map(|(mut rec, bound, drift, (as_s, as_n), age, real, via_updater, open_error, (shared_lib, preexisting))| {
+        .prop_map(|(mut rec, bound, drift, (as_s, as_n), age, real, via_updater, open_error, (shared_lib, preexisting, after_open))| {
             // physically meaningful timestamps for the now() comparison; all fields stay distinct
             rec.as_of_s = as_s;
             rec.as_of_ns = as_n;
@@ -527,6 +533,7 @@ fn c17_strategy() -> BoxedStrategy<AbiCase> {
                 open_error,
                 shared_lib,
                 preexisting,
+                after_open,
             }
         })
         .boxed()
@@ -657,21 +664,69 @@ fn check_c17_case(case: &AbiCase, env: &mut Env) -> Verdict {
         v.fail(format!("status encoded as {}", decoded.status));
     }
 
-    // ---- ABI: same segment, same virtual instant, both clients
+    // ---- ABI: same segment, same virtual instant, both clients. Both attach first; the segment may
+    // then change (as it does under a long-lived client); then both are asked.
     let real = case.real_ns as i128;
     let mono = case.mono_ns as i128;
+    let now_out = |r: Result<clock_bound_client::ClockBoundNowResult, clock_bound_client::ClockBoundError>| match r {
+        Ok(o) => NowOut::Ok {
+            earliest_ns: crate::clock::timespec_to_ns(o.earliest.as_ref()),
+            latest_ns: crate::clock::timespec_to_ns(o.latest.as_ref()),
+            status: status_to_i32(o.clock_status),
+        },
+        Err(e) => client_err_to_out(e),
+    };
+    let mut rust_client = ClockBoundClient::new_with_path(&pstr);
+    let c_open = cdriver(env, variant).map(|d| d.open(&pstr));
+    {
+        use std::os::unix::fs::FileExt;
+        let f = std::fs::OpenOptions::new().write(true).open(&path).unwrap();
+        match case.after_open {
+            1 => {
+                v.label("generation-odd-after-open");
+                v.nontrivial = true;
+                let _ = f.write_all_at(&3u16.to_le_bytes(), OFF_GENERATION as u64);
+            }
+            2 => {
+                v.label("wiped-after-open");
+                v.nontrivial = true;
+                let _ = f.write_all_at(&[0u8; 4], OFF_VERSION as u64);
+            }
+            3 => {
+                v.label("updated-after-open");
+                let newer = Rec { bound: published.bound / 2 + 17, ..published };
+                let _ = f.write_all_at(&3u16.to_le_bytes(), OFF_GENERATION as u64);
+                let _ = f.write_all_at(&newer.encode(), HEADER_LEN as u64);
+                let _ = f.write_all_at(&4u16.to_le_bytes(), OFF_GENERATION as u64);
+            }
+            _ => {}
+        }
+    }
+    if case.after_open == 4 {
+        v.label("failing-call-first");
+        v.nontrivial = true;
+        let early = published.as_of_ns_total() - 1_000_000_000;
+        let r0 = {
+            let vc = VClock::new(early, real);
+            let _g = vc.install();
+            match rust_client.as_mut() {
+                Ok(c) => now_out(c.now()),
+                Err(_) => NowOut::Ok { earliest_ns: 0, latest_ns: 0, status: -1 },
+            }
+        };
+        if let (Some(d), Some(Ok(()))) = (cdriver(env, variant), &c_open) {
+            d.set_time(real, early);
+            let c0 = d.now();
+            if c0 != r0 && rust_client.is_ok() {
+                v.fail(format!("same segment, same instant (a second before as-of): the C library returned {:?}, the Rust client {:?}", c0, r0));
+            }
+        }
+    }
     let rust: NowOut = {
         let vc = VClock::new(mono, real);
         let _g = vc.install();
-        match ClockBoundClient::new_with_path(&pstr) {
-            Ok(mut c) => match c.now() {
-                Ok(o) => NowOut::Ok {
-                    earliest_ns: crate::clock::timespec_to_ns(o.earliest.as_ref()),
-                    latest_ns: crate::clock::timespec_to_ns(o.latest.as_ref()),
-                    status: status_to_i32(o.clock_status),
-                },
-                Err(e) => client_err_to_out(e),
-            },
+        match rust_client {
+            Ok(mut c) => now_out(c.now()),
             Err(e) => client_err_to_out(e),
         }
     };
@@ -687,19 +742,31 @@ fn check_c17_case(case: &AbiCase, env: &mut Env) -> Verdict {
     }
     if let Some(d) = cdriver(env, variant) {
         v.sub_evals += 1;
-        match d.open(&pstr) {
-            Ok(()) => {
+        match c_open {
+            Some(Ok(())) => {
                 d.set_time(real, mono);
                 let c = d.now();
                 if c != rust {
-                    v.fail(format!("same segment, same instant: the C library returned {:?}, the Rust client {:?}", c, rust));
+                    v.fail(format!(
+                        "same segment, same instant{}: the C library returned {:?}, the Rust client {:?}",
+                        match case.after_open {
+                            1 => " (both attached before the generation turned odd)",
+                            2 => " (both attached before the file was wiped)",
+                            3 => " (both attached before one more update)",
+                            4 => " (after a failing call on both)",
+                            _ => "",
+                        },
+                        c,
+                        rust
+                    ));
                 }
                 if matches!(c, NowOut::Ok { .. }) && d.last_ids != "Rc" {
                     v.fail(format!("clockbound_now read the clocks in the order {:?} (expected realtime then monotonic-coarse)", d.last_ids));
                 }
                 d.close();
             }
-            Err(e) => v.fail(format!("clockbound_open failed on a daemon-written segment: {:?}", e)),
+            Some(Err(e)) => v.fail(format!("clockbound_open failed on a daemon-written segment: {:?}", e)),
+            None => {}
         }
         if !d.alive() {
             v.fail("the C driver died".into());
@@ -715,7 +782,7 @@ impl Property for C17 {
     type Case = AbiCase;
     const ID: &'static str = "C17";
     fn rule() -> String {
-        "cases = record with all fields drawn independently (negative and > 2^32 bounds, all of u32 for drift and reserved, sec+nsec of both timestamps, 3 statuses), published through the real ShmWriter (raw) or through the daemon's ShmUpdater, on a fresh path or over unusable leftovers (200 bytes of garbage, 9 bytes, a 128-byte stale segment); clock readings incl. causality breaches, ages beyond 5 s / beyond void_after, malformed drift; open errors (missing file, bad magic, small declared size, generation 0); static and shared libclockbound. Oracle: (layout) the file decoded with offsets transcribed from PROTOCOL.md equals the published field values, length 72, header magic/size/version 1/generation 2, status in 0..2; (ABI) a C program compiled against clockbound.h returns for the same segment and the same virtual (realtime, monotonic) exactly the Rust client's earliest/latest/status or error kind/errno/detail; sizeof/offsetof/enumerators reported by the C program equal the documented ones. Non-trivial: all fields non-zero and pairwise distinct, or an error case.".into()
+        "cases = record with all fields drawn independently (negative and > 2^32 bounds, all of u32 for drift and reserved, sec+nsec of both timestamps, 3 statuses), published through the real ShmWriter (raw) or through the daemon's ShmUpdater, on a fresh path or over unusable leftovers (200 bytes of garbage, 9 bytes, a 128-byte stale segment); clock readings incl. causality breaches, ages beyond 5 s / beyond void_after, malformed drift; both clients attach first, then (half of the cases) the segment changes under them - generation turns odd, file wiped, one more update - or both first make a failing call; open errors (missing file, bad magic, small declared size, generation 0); static and shared libclockbound. Oracle: (layout) the file decoded with offsets transcribed from PROTOCOL.md equals the published field values, length 72, header magic/size/version 1/generation 2, status in 0..2; (ABI) a C program compiled against clockbound.h returns for the same segment and the same virtual (realtime, monotonic) exactly the Rust client's earliest/latest/status or error kind/errno/detail; sizeof/offsetof/enumerators reported by the C program equal the documented ones. Non-trivial: all fields non-zero and pairwise distinct, or an error case.".into()
     }
     fn assumptions() -> Vec<String> {
         vec!["the magic number is read as the two 32-bit words 0x414D5A4E 0x43420200 in native byte order (PROTOCOL.md lists the eight bytes in that reading)".into()]
